@@ -50,6 +50,16 @@ def run_real(rows, cols, ops, alias_pick=0):
             qs.append('EXC:None' if r is None else str(ord(r)))
         elif name == 'gr':
             qs.append(';'.join(enc(l) for l in r))
+        # the accessors are read after *every* operation (a rendering computed earlier must not survive a later change):
+        # str(), dump() and pretty() all describe the grid as it is now
+        rows_now = [''.join(x if isinstance(x, str) else x.decode('latin-1') for x in r_) for r_ in s.w]
+        if str(s) != '\n'.join(rows_now):
+            qs.append('STALE:str after %s' % name)
+        if s.dump() != ''.join(rows_now):
+            qs.append('STALE:dump after %s' % name)
+        top = '+' + '-' * s.cols + '+\n'
+        if s.pretty() != top + '\n'.join('|' + l + '|' for l in rows_now) + '\n' + top:
+            qs.append('STALE:pretty after %s' % name)
     return s, qs
 
 
